@@ -385,8 +385,10 @@ def queryRW (t : Tables) (mode64 : Bool) (inst : Inst) (ops : List Opnd) : Excep
       -- the C++ writes the vec128 description first and falls through to the mm test when operand 1 is neither
       -- vec128 nor memory; the second block overwrites it if operand 0 is an mm register (it cannot be both)
       if o0.isRegType tVec128 && (o1.isRegType tVec128 || o1.isMem) then
-        let a : OpRW := { OpRW.reset fX 16 with rmask := 0x0F0F, wmask := 0xFFFF }
-        let b : OpRW := { OpRW.reset fR 16 with wmask := 0x0F0F }
+        -- repaired code (fixes/C12-4.patch): the low quadword of the destination is read (pinned: 0x0F0F, and a stray
+        -- write mask 0x0F0F on the read-only source)
+        let a : OpRW := { OpRW.reset fX 16 with rmask := 0x00FF, wmask := 0xFFFF }
+        let b : OpRW := OpRW.reset fR 16
         okOut (ret [(0, a), (1, if o1.isMem then { b with flags := Nat.lor b.flags fMibRead } else b)])
       else if o0.isRegType tMm && (o1.isRegType tMm || o1.isMem) then
         let a : OpRW := { OpRW.reset fX 8 with rmask := 0x0F, wmask := 0xFF }
